@@ -527,6 +527,83 @@ def knownCanonicalCause (cmp : Bytes → Bytes → Ordering) (left right : Tree)
       cmp p.endKey lastR.1 == .eq &&
       left.flatten.any (fun kv => cmp p.endKey kv.1 == .lt))
 
+/-- The INPUT-SHAPE cause of the known finding `MergeMaps/tail-truncation-data-loss` at one `split` call:
+the generator's previous patch is a removed RANGE and the first key of the `from` child that
+`split`'s `RemovedDiff` case descends to is `≤ previousKey` — the `from` node straddles `previousKey`
+(it was sent by `advanceFromPreviousPatch` after a modified range that ended at `to`'s last key), and
+that case has no loop skipping what earlier patches covered. -/
+def splitStraddles (cmp : Bytes → Bytes → Ordering) (d : PG) : Bool :=
+  decide (d.prevLevel > 0) &&
+  (match d.prevType with | some .removed => true | _ => false) &&
+  (match pushChild d.from_ with
+   | .ok c => (match curKey c, d.prevKey with
+      | some k, some pk => cmp k pk != .gt
+      | _, _ => false)
+   | .error _ => false)
+
+/-- `sendLoop` with a flag: was `split` ever called on a generator in a `splitStraddles` state?
+(the same control flow as `sendLoop`; only the `splitL` / `splitR` sites look at the flag) -/
+def sendLoopF (cmp : Bytes → Bytes → Ordering) (collide : Collide) (fuel : Nat) : Nat → SP → Bool → M (SP × Bool)
+  | 0, _, _ => .error .fuel
+  | n + 1, s, fl =>
+    match s.left, s.right with
+    | some (left, lt), some (right, rt) =>
+      let leftLevel := s.l.getLevel
+      let rightLevel := s.r.getLevel
+      let nextL (s : SP) : M SP := do let (l', x) ← pgNext cmp fuel s.l; pure { s with l := l', left := x }
+      let nextR (s : SP) : M SP := do let (r', x) ← getNextAndSplitIfAtEnd cmp fuel s.r; pure { s with r := r', right := x }
+      let splitL (s : SP) : M SP := do let (l', x) ← pgSplit cmp fuel s.l; pure { s with l := l', left := x }
+      let splitR (s : SP) : M SP := do let (r', x) ← pgSplit cmp fuel s.r; pure { s with r := r', right := x }
+      let send (s : SP) (p : Patch) : SP := { s with out := p :: s.out }
+      if leftLevel > 0 && rightLevel > 0 then
+        if ordLE (cmpNilMin cmp (some left.endKey) right.keyBelowStart) then do sendLoopF cmp collide fuel n (← nextL s) fl
+        else if ordLE (cmpNilMin cmp (some right.endKey) left.keyBelowStart) then do sendLoopF cmp collide fuel n (← nextR (send s right)) fl
+        else if optPValEq left.to? right.to? then do
+          let s1 := if cmpNilMin cmp left.keyBelowStart right.keyBelowStart == .gt then send s right else s
+          sendLoopF cmp collide fuel n (← nextR (← nextL s1)) fl
+        else do
+          let c := cmpNilMin cmp left.keyBelowStart right.keyBelowStart
+          let fl1 := fl || (ordLE c && splitStraddles cmp s.l)
+          let s1 ← if ordLE c then splitL s else pure s
+          let fl2 := fl1 || (ordGE c && splitStraddles cmp s1.r)
+          let s2 ← if ordGE c then splitR s1 else pure s1
+          sendLoopF cmp collide fuel n s2 fl2
+      else if rightLevel > 0 then
+        if ordLE (cmpNilMin cmp (some left.endKey) right.keyBelowStart) then do sendLoopF cmp collide fuel n (← nextL s) fl
+        else if cmp left.endKey right.endKey == .gt then do sendLoopF cmp collide fuel n (← nextR (send s right)) fl
+        else do sendLoopF cmp collide fuel n (← splitR s) (fl || splitStraddles cmp s.r)
+      else if leftLevel > 0 then
+        if ordLE (cmpNilMin cmp (some right.endKey) left.keyBelowStart) then do sendLoopF cmp collide fuel n (← nextR (send s right)) fl
+        else if cmp right.endKey left.endKey == .gt then do sendLoopF cmp collide fuel n (← nextL s) fl
+        else do sendLoopF cmp collide fuel n (← splitL s) (fl || splitStraddles cmp s.l)
+      else
+        match cmp left.endKey right.endKey with
+        | .lt => do sendLoopF cmp collide fuel n (← nextL s) fl
+        | .gt => do sendLoopF cmp collide fuel n (← nextR (send s right)) fl
+        | .eq =>
+          let s1 :=
+            if !optPValEq left.to? right.to? then
+              let c : Collision := ⟨⟨lt, left.endKey, pvalBytes left.from?, pvalBytes left.to?⟩, ⟨rt, right.endKey, pvalBytes right.from?, pvalBytes right.to?⟩⟩
+              match resolveCollision collide left lt right rt with
+              | some p => { send s p with coll := c :: s.coll }
+              | none => { s with coll := c :: s.coll }
+            else s
+          do sendLoopF cmp collide fuel n (← nextR (← nextL s1)) fl
+    | _, _ => pure (s, fl)
+
+/-- does the run of the (unchanged) `SendPatches` on this input split a removed range whose `from`
+node straddles `previousKey`?  (`false` when the run fails) -/
+def knownStraddleCause (cmp : Bytes → Bytes → Ordering) (collide : Collide) (base left right : Tree) : Bool :=
+  let fuel := mergeFuel base left right
+  match (do
+    let ld ← pgFromRoots base left
+    let rd ← pgFromRoots base right
+    let (l1, lf) ← pgNext cmp fuel ld
+    let (r1, rf) ← getNextAndSplitIfAtEnd cmp fuel rd
+    sendLoopF cmp collide fuel fuel { l := l1, r := r1, left := lf, right := rf } false) with
+  | .ok (_, fl) => fl
+  | .error _ => false
+
 /-- all patches of one generator (base→to), as `Next` would produce them without any split -/
 def drainPG (cmp : Bytes → Bytes → Ordering) (fuel : Nat) : Nat → PG → List (Patch × DiffType) → M (List (Patch × DiffType))
   | 0, _, _ => .error .fuel
